@@ -2,12 +2,17 @@
 import os
 from . import core, eng, gen, tiec, engcheck, tiea
 
-MODULES = ["AscentVerif.Props.C01", "AscentVerif.Props.TieD"]
+MODULES = ["AscentVerif.Props.C01", "AscentVerif.Props.TieD", "AscentVerif.Props.C01Plan"]
 THEOREMS = ["versionsBase_eq", "versionsBase_covers", "versionsBase_skips_old", "run_sound", "run_complete", "run_eq_leastModel",
-            "run_exit_closed", "run_rows_set"]
+            "run_exit_closed", "run_rows_set", "idxGet_spec", "iterAll_spec", "clause_step", "join_step", "join_step_swapped", "index_selection_eq",
+            "index_selection_sound_complete", "reordering_sound", "reordering_sound_evalBody", "head_rows_perm", "head_rows_perm_swapped", "guard_needed", "desugared_needed"]
 TRUSTED = ["Lean 4.33.0 kernel", "axioms: propext, Classical.choice, Quot.sound only (audited per theorem)",
            "statements: Spec/Datalog.lean (Derivable = least model) and Props/C01.lean",
            "tie D: versions_base is re-translated from ascent_mir.rs on every run (tools/rs2lean.py) and proved equal to Engine.versionsBase for all n (Props/TieD.lean versionsBase_eq)",
+           "Model/Plan.lean: the plan-level evaluation the generated code really performs (index_get on the index columns chosen by Hir.compileRule, the nested "
+           "iter_all / index_get loops of a simple join, the swapped copy of a reorderable rule) is proved to enumerate the same environments as the filter-level "
+           "evalBody up to permutation (Props/C01Plan.lean: index_selection_sound_complete, reordering_sound, with the decide-d witnesses guard_needed / desugared_needed); "
+           "Hir.compileRule itself is tied to the real compiler's mir_summary by tie A",
            "model Model/Engine.lean hand-written at MIR level after ascent_mir.rs / ascent_codegen.rs; index lookups are filters "
            "(hash indices themselves: C19); tied by compiling generated programs with the real macros and diffing relation contents "
            "(with multiplicities) and scc_iters against the Lean driver, plus an independent naive least-model oracle (tools/vlib/eng.py)",
